@@ -789,3 +789,348 @@ func (n *norm) sroaParams() bool {
 	}
 	return changed
 }
+
+// sroaIfaceParams: the same for a method of an interface declared in the package: when the
+// interface method has a by-value struct parameter of a package type, every method of that name
+// and signature in the package uses the parameter field by field only, and every call of the
+// method (through the interface or on a concrete receiver) passes a local variable or a
+// composite literal, the interface method, all implementations and all call sites get one
+// parameter per field.
+func (n *norm) sroaIfaceParams() bool {
+	changed := false
+	for _, f := range n.files {
+		for _, d := range f.Decls {
+			gd, ok := d.(*ast.GenDecl)
+			if !ok || gd.Tok != token.TYPE {
+				continue
+			}
+			for _, sp := range gd.Specs {
+				ts := sp.(*ast.TypeSpec)
+				it, ok := ts.Type.(*ast.InterfaceType)
+				if !ok || it.Methods == nil || ts.TypeParams != nil {
+					continue
+				}
+				for _, mf := range it.Methods.List {
+					ft, ok := mf.Type.(*ast.FuncType)
+					if !ok || len(mf.Names) != 1 || ft.Params == nil {
+						continue
+					}
+					if n.sroaIfaceMethod(f, mf, ft) {
+						changed = true
+					}
+				}
+			}
+		}
+	}
+	return changed
+}
+
+func (n *norm) sroaIfaceMethod(ifaceFile *ast.File, mf *ast.Field, ft *ast.FuncType) bool {
+	mname := mf.Names[0].Name
+	mobj, ok := n.info.Defs[mf.Names[0]].(*types.Func)
+	if !ok {
+		return false
+	}
+	msig := mobj.Type().(*types.Signature)
+	// the struct parameter (first one that qualifies)
+	pidx := -1
+	var st *types.Struct
+	var T types.Type
+	for i := 0; i < msig.Params().Len(); i++ {
+		pt := msig.Params().At(i).Type()
+		named, isNamed := pt.(*types.Named)
+		s, isSt := pt.Underlying().(*types.Struct)
+		if !isNamed || !isSt || named.Obj().Pkg() != n.pkg || s.NumFields() == 0 || s.NumFields() > 8 {
+			continue
+		}
+		good := true
+		for j := 0; j < s.NumFields(); j++ {
+			if s.Field(j).Embedded() || s.Field(j).Name() == "_" {
+				good = false
+			}
+		}
+		if good {
+			pidx, st, T = i, s, pt
+			break
+		}
+	}
+	if pidx < 0 || msig.Variadic() {
+		return false
+	}
+	// position of the parameter in the interface method's field list (one name per field expected)
+	flat := 0
+	var ifaceField *ast.Field
+	for _, pf := range ft.Params.List {
+		k := len(pf.Names)
+		if k == 0 {
+			k = 1
+		}
+		if flat == pidx && k == 1 {
+			ifaceField = pf
+		}
+		flat += k
+	}
+	if ifaceField == nil {
+		return false
+	}
+	// implementations: every method of that name; all must have the identical signature
+	type impl struct {
+		fd    *ast.FuncDecl
+		file  *ast.File
+		field *ast.Field
+		pobj  types.Object
+		names []string
+	}
+	var impls []*impl
+	for _, f := range n.files {
+		for _, d := range f.Decls {
+			fd, ok := d.(*ast.FuncDecl)
+			if !ok || fd.Recv == nil || fd.Name.Name != mname || fd.Body == nil {
+				continue
+			}
+			fn, ok := n.info.Defs[fd.Name].(*types.Func)
+			if !ok {
+				return false
+			}
+			sig := fn.Type().(*types.Signature)
+			if !types.Identical(types.NewSignatureType(nil, nil, nil, sig.Params(), sig.Results(), sig.Variadic()), types.NewSignatureType(nil, nil, nil, msig.Params(), msig.Results(), msig.Variadic())) {
+				return false // a method of the same name with another signature: leave everything alone
+			}
+			var field *ast.Field
+			flat := 0
+			for _, pf := range fd.Type.Params.List {
+				k := len(pf.Names)
+				if k == 0 {
+					k = 1
+				}
+				if flat == pidx && k == 1 && len(pf.Names) == 1 {
+					field = pf
+				}
+				flat += k
+			}
+			if field == nil {
+				return false
+			}
+			pobj := n.info.Defs[field.Names[0]]
+			im := &impl{fd: fd, file: f, field: field, pobj: pobj}
+			if field.Names[0].Name != "_" {
+				inSel := map[*ast.Ident]bool{}
+				ast.Inspect(fd.Body, func(x ast.Node) bool {
+					if s, ok := x.(*ast.SelectorExpr); ok {
+						if id, ok := ast.Unparen(s.X).(*ast.Ident); ok && n.info.Uses[id] == pobj {
+							if sel := n.info.Selections[s]; sel != nil && sel.Kind() == types.FieldVal && len(sel.Index()) == 1 {
+								inSel[id] = true
+							}
+						}
+					}
+					return true
+				})
+				good := true
+				ast.Inspect(fd.Body, func(x ast.Node) bool {
+					if id, ok := x.(*ast.Ident); ok && n.info.Uses[id] == pobj && !inSel[id] {
+						good = false
+					}
+					return true
+				})
+				if !good {
+					return false
+				}
+			}
+			local := n.localNames(fd)
+			for j := 0; j < st.NumFields(); j++ {
+				if n.typeExpr(st.Field(j).Type(), f) == nil {
+					return false
+				}
+				nm := field.Names[0].Name + "_" + st.Field(j).Name()
+				if field.Names[0].Name == "_" {
+					nm = "_"
+				}
+				for nm != "_" && local[nm] {
+					nm += "_"
+				}
+				local[nm] = true
+				im.names = append(im.names, nm)
+			}
+			impls = append(impls, im)
+		}
+	}
+	if len(impls) == 0 {
+		return false
+	}
+	for j := 0; j < st.NumFields(); j++ {
+		if n.typeExpr(st.Field(j).Type(), ifaceFile) == nil {
+			return false
+		}
+	}
+	// call sites: selector calls of that method name whose method is the interface's or an implementation's
+	implObj := map[types.Object]bool{mobj: true}
+	for _, im := range impls {
+		implObj[n.info.Defs[im.fd.Name]] = true
+	}
+	type site struct {
+		call *ast.CallExpr
+		file *ast.File
+	}
+	var sites []site
+	okAll := true
+	funPos := map[*ast.Ident]bool{}
+	for _, f := range n.files {
+		file := f
+		ast.Inspect(f, func(x ast.Node) bool {
+			call, ok := x.(*ast.CallExpr)
+			if !ok {
+				return true
+			}
+			sel, ok := ast.Unparen(call.Fun).(*ast.SelectorExpr)
+			if !ok || sel.Sel.Name != mname {
+				return true
+			}
+			s := n.info.Selections[sel]
+			if s == nil || !implObj[s.Obj()] {
+				return true
+			}
+			if s.Kind() != types.MethodVal {
+				okAll = false
+				return true
+			}
+			funPos[sel.Sel] = true
+			if call.Ellipsis.IsValid() || len(call.Args) != msig.Params().Len() {
+				okAll = false
+				return true
+			}
+			switch a := ast.Unparen(call.Args[pidx]).(type) {
+			case *ast.Ident:
+				if v, isVar := n.info.Uses[a].(*types.Var); !isVar || v.IsField() || v.Parent() == n.pkg.Scope() || !types.Identical(v.Type(), T) {
+					okAll = false
+				}
+			case *ast.CompositeLit:
+				tv, ok := n.info.Types[a]
+				if !ok || !types.Identical(tv.Type, T) {
+					okAll = false
+					break
+				}
+				last := -1
+				for i, el := range a.Elts {
+					fi, val := i, el
+					if kv, isKV := el.(*ast.KeyValueExpr); isKV {
+						fi = -1
+						if k, ok := kv.Key.(*ast.Ident); ok {
+							for j := 0; j < st.NumFields(); j++ {
+								if st.Field(j).Name() == k.Name {
+									fi = j
+								}
+							}
+						}
+						val = kv.Value
+					}
+					if fi < 0 || (fi < last && !n.trivial(val)) {
+						okAll = false
+					}
+					if fi > last {
+						last = fi
+					}
+				}
+			default:
+				okAll = false
+			}
+			sites = append(sites, site{call, file})
+			return true
+		})
+	}
+	// any other reference to the methods (method values, method expressions) disqualifies
+	for id, o := range n.info.Uses {
+		if implObj[o] && !funPos[id] {
+			okAll = false
+		}
+	}
+	if !okAll {
+		return false
+	}
+	// rewrite the call sites
+	for _, s := range sites {
+		var repl []ast.Expr
+		switch a := ast.Unparen(s.call.Args[pidx]).(type) {
+		case *ast.Ident:
+			for j := 0; j < st.NumFields(); j++ {
+				repl = append(repl, &ast.SelectorExpr{X: &ast.Ident{NamePos: a.NamePos, Name: a.Name}, Sel: ast.NewIdent(st.Field(j).Name())})
+			}
+		case *ast.CompositeLit:
+			repl = make([]ast.Expr, st.NumFields())
+			for i, el := range a.Elts {
+				if kv, isKV := el.(*ast.KeyValueExpr); isKV {
+					for j := 0; j < st.NumFields(); j++ {
+						if st.Field(j).Name() == kv.Key.(*ast.Ident).Name {
+							repl[j] = kv.Value
+						}
+					}
+				} else {
+					repl[i] = el
+				}
+			}
+			for j := range repl {
+				if repl[j] == nil {
+					te := n.typeExpr(st.Field(j).Type(), s.file)
+					if te == nil {
+						return false
+					}
+					repl[j] = &ast.StarExpr{X: &ast.CallExpr{Fun: ast.NewIdent("new"), Args: []ast.Expr{te}}}
+				}
+			}
+		}
+		var args []ast.Expr
+		args = append(args, s.call.Args[:pidx]...)
+		args = append(args, repl...)
+		args = append(args, s.call.Args[pidx+1:]...)
+		s.call.Args = args
+	}
+	// the interface method
+	{
+		var fields []*ast.Field
+		for _, pf := range ft.Params.List {
+			if pf != ifaceField {
+				fields = append(fields, pf)
+				continue
+			}
+			for j := 0; j < st.NumFields(); j++ {
+				fld := &ast.Field{Type: n.typeExpr(st.Field(j).Type(), ifaceFile)}
+				if len(pf.Names) == 1 {
+					fld.Names = []*ast.Ident{ast.NewIdent(pf.Names[0].Name + "_" + st.Field(j).Name())}
+				}
+				fields = append(fields, fld)
+			}
+		}
+		ft.Params.List = fields
+	}
+	// the implementations
+	for _, im := range impls {
+		var fields []*ast.Field
+		for _, pf := range im.fd.Type.Params.List {
+			if pf != im.field {
+				fields = append(fields, pf)
+				continue
+			}
+			for j, nm := range im.names {
+				fields = append(fields, &ast.Field{Names: []*ast.Ident{ast.NewIdent(nm)}, Type: n.typeExpr(st.Field(j).Type(), im.file)})
+			}
+		}
+		im.fd.Type.Params.List = fields
+		pname := im.field.Names[0].Name
+		if pname == "_" {
+			continue
+		}
+		astutil.Apply(im.fd.Body, nil, func(cur *astutil.Cursor) bool {
+			if s, ok := cur.Node().(*ast.SelectorExpr); ok {
+				if id, ok := ast.Unparen(s.X).(*ast.Ident); ok && id.Name == pname && n.info.Uses[id] == im.pobj {
+					for j := 0; j < st.NumFields(); j++ {
+						if st.Field(j).Name() == s.Sel.Name {
+							cur.Replace(&ast.Ident{NamePos: s.Sel.NamePos, Name: im.names[j]})
+						}
+					}
+				}
+			}
+			return true
+		})
+	}
+	n.rep.Split = append(n.rep.Split, fmt.Sprintf("interface method %s(parameter #%d)", mname, pidx))
+	return true
+}
